@@ -370,6 +370,7 @@ pub fn concretize(a: &Value) -> Model {
     m.meta.name = "abstract".to_string();
     if let Some(meta) = a.get("meta") {
         m.meta.is_new_building = gb(meta, "new", true);
+        m.meta.is_dwelling = gb(meta, "dwelling", true);
         m.meta.n50_test_ach = gof(meta, "n50t", 1e4);
         m.meta.global_ventilation_l_s = gof(meta, "gvent", 1e4);
         let z = gs(meta, "zone");
